@@ -21,8 +21,13 @@ def parseAtom (j : Json) : Except String Atom := do
   | "fn" => return .fn (← (← getArr j "deps").toList.mapM parsePair) (← getInt j "k") (← getBool j "rx") (← optInt j "sk")
   | a => throw s!"unknown atom {a}"
 
+/-- the case's shared number generator: a plain callable = a dependency-free function.  The model does not
+cover callables (Dynamic values); `placeGen` below replaces the marker where the harness assigns it. -/
+def genMarker : Rhs := .atom (.fn [] 0 false none)
+
 def parseRhs (j : Json) : Except String Rhs := do
   match ← getStr j "k" with
+  | "gen" => return genMarker
   | "atom" => return .atom (← parseAtom (← j.getObjVal? "a"))
   | "cont" => return .cont (← (← getArr j "items").toList.mapM parseAtom)
   | k => throw s!"unknown rhs {k}"
@@ -55,6 +60,27 @@ def parseOp (j : Json) : Except String Op := do
   | "srcSet" => return .srcSet (← getNat j "s") (← getNat j "i") (← getInt j "v")
   | o => throw s!"unknown op {o}"
 
+/-- A callable assigned to a *readonly Integer* parameter passes `_validate` (Number lets callables
+through) and is rejected by the readonly guard with TypeError, on every route — exactly like any valid
+number.  There the driver hands the model a valid literal instead; everywhere else the marker stays and
+the model (like the harness) refuses the operation as unsupported. -/
+def placeGen (ds : List (List PDecl)) (t : Nat) (kv : Nat × Rhs) : Nat × Rhs :=
+  if kv.2 == genMarker then
+    match (ds[t]?).bind (·[kv.1]?) with
+    | some d =>
+      if d.kind == .int && d.readonly then
+        (kv.1, .atom (.lit (match d.lo, d.hi with | some l, _ => l | none, some h => h | none, none => 0)))
+      else kv
+    | none => kv
+  else kv
+
+def placeGenOp (ds : List (List PDecl)) : Op → Op
+  | .set t p rhs => .set t p (placeGen ds t (p, rhs)).2
+  | .setCls t p rhs => .setCls t p (placeGen ds t (p, rhs)).2
+  | .update t kvs => .update t (kvs.map (placeGen ds t))
+  | .ctxEnter t kvs => .ctxEnter t (kvs.map (placeGen ds t))
+  | op => op
+
 def jVal : Val → Json
   | .int n => toJson n
   | .tup l => Json.arr (l.map toJson).toArray
@@ -81,7 +107,9 @@ def stateFields (s : State) : List (String × Json) := [
   ("tgt", jList (jList jVal) s.tgt),
   ("cls", jList (jList jVal) s.cls),
   ("refs", jList (jList fun kv : Nat × Rhs => Json.arr #[toJson kv.1, jRhs kv.2]) s.refs),
-  ("watch", jList (jList (jList (toJson : Nat → Json))) s.watch)]
+  ("watch", jList (jList (jList (toJson : Nat → Json))) s.watch),
+  ("aux", jList (jList (toJson : Int → Json)) s.aux),
+  ("own", jList (jList (toJson : Int → Json)) s.own)]
 
 def jStep (o : StepObs) : Json :=
   Json.mkObj (stateFields o.st ++ [("err", match o.err with | some e => Json.str e | none => Json.null),
@@ -93,7 +121,9 @@ def parseState (j : Json) : Except String State := do
            tgt := ← ll (ll parseVal) (← j.getObjVal? "tgt"),
            cls := ← ll (ll parseVal) (← j.getObjVal? "cls"),
            refs := ← ll parseKvs (← j.getObjVal? "refs"),
-           watch := ← ll (ll (ll (·.getNat?))) (← j.getObjVal? "watch") }
+           watch := ← ll (ll (ll (·.getNat?))) (← j.getObjVal? "watch"),
+           aux := ← ll (ll (·.getInt?)) (← j.getObjVal? "aux"),
+           own := ← ll (ll (·.getInt?)) (← j.getObjVal? "own") }
 
 def parseEntry (j : Json) : Except String Entry := do
   let q ← j.getArr?
@@ -109,9 +139,9 @@ def parseStep (j : Json) : Except String StepObs := do
            log := ← (← getArr j "log").toList.mapM parseEntry }
 
 /-- the model's run of a history: observations and branch tags -/
-def runModel (c : Cfg) (w0 : World) (ops : List Op) : List StepObs × List String :=
-  let (_, obs, br) := ops.foldl (fun (acc : World × List StepObs × List String) op =>
-      let (w, l, b) := acc
+def runModel (c : Cfg) (aux own0 : List (List Int)) (w0 : World) (ops : List Op) : List StepObs × List String :=
+  let (_, _, obs, br) := ops.foldl (fun (acc : World × List (List Int) × List StepObs × List String) op =>
+      let (w, own, l, b) := acc
       let (r, w', log) := step c op w
       let kind := match op with
         | .set t p rhs =>
@@ -121,8 +151,12 @@ def runModel (c : Cfg) (w0 : World) (ops : List Op) : List StepObs × List Strin
           "set:" ++ (if isRef then "ref" else "plain") ++ (if linked then ":linked" else ":free") ++ (if sk then ":skip" else "")
         | .setCls .. => "setCls" | .update .. => "update" | .ctxEnter .. => "ctxEnter" | .ctxExit => "ctxExit"
         | .srcSet .. => "srcSet:" ++ (if r != .ok then "sync" else if log.length > 1 then "synced" else "quiet")
-      (w', { st := stateOf c w', err := errName r, log := log } :: l,
-        (if kind.endsWith ":skip" then kind else kind ++ ":" ++ ((errName r).getD "ok")) :: b)) (w0, [], [])
+      -- a class-level assignment that is accepted installs the (copied) Parameter in the class itself
+      let own' := match op, r with
+        | .setCls t p _, .ok => own.zipIdx.map fun (row, t') => if t' == t then row.set p 1 else row
+        | _, _ => own
+      (w', own', { st := { stateOf c w' with aux := aux, own := own' }, err := errName r, log := log } :: l,
+        (if kind.endsWith ":skip" then kind else kind ++ ":" ++ ((errName r).getD "ok")) :: b)) (w0, own0, [], [])
   (obs.reverse, br)
 
 def handle (req : Json) : Except String Json := do
@@ -137,7 +171,7 @@ def handle (req : Json) : Except String Json := do
   let impl ← req.getObjVal? "impl"
   -- the harness stops a history with rx references at the first source update that raised (see refs_impl.py)
   let cut ← getNat impl "cut"
-  let ops := ops0.take cut
+  let ops := (ops0.take cut).map (placeGenOp (tds.map fun td => td.1.map (·.1)))
   let c : Cfg := { F := fun k xs => k + xs.foldl (· + ·) 0, nsp := nsp, decls := tds.map fun td => td.1.map (·.1) }
   let w0 : World := { src := srcInit, watch := srcInit.map fun _ => [], tgts := [], stack := [] }
   -- construction
@@ -153,8 +187,22 @@ def handle (req : Json) : Except String Json := do
       ("applicable", Json.bool false), ("checked_steps", toJson (0 : Nat)),
       ("spec_impl", Json.null), ("spec_model", Json.null), ("branches", Json.arr #[Json.str "ctor:raised"])]
   | (.ok, w1) =>
-    let (mSteps, branches) := runModel c w1 ops
-    let mInit := stateOf c w1
+    -- what never moves (see `State.aux`): every target's Event parameter idle and `syncing` empty; the witness
+    -- of the shared generator keeps whatever it showed after construction
+    let dynRow : List (List Int) := match (getOpt impl "init").bind (fun i => (i.getObjVal? "aux").toOption) with
+      | some a => match a.getArr? with
+        | .ok arr => match arr.toList.getLast? with
+          | some r => match r.getArr? with
+            | .ok xs => [xs.toList.filterMap (·.getInt?.toOption)]
+            | .error _ => []
+          | none => []
+        | .error _ => []
+      | none => []
+    let aux0 : List (List Int) := w1.tgts.map (fun _ => [0, 0, 0]) ++ dynRow
+    let sub := (getOpt case "sub").bind (·.getBool?.toOption) |>.getD false
+    let own0 : List (List Int) := tds.map fun td => td.1.map fun _ => if sub then 0 else 1
+    let (mSteps, branches) := runModel c aux0 own0 w1 ops
+    let mInit := { stateOf c w1 with aux := aux0, own := own0 }
     let unsupported := mSteps.any (fun o => o.err == some "unsupported")
     let implOk := (getOpt impl "ctor_err").isNone
     if !implOk then
@@ -177,10 +225,16 @@ def handle (req : Json) : Except String Json := do
         pure (n, render vi, render vm)
       else do
         let iTwin ← (← getArr impl "twin").toList.mapM parseStep
-        let (mTwin, _) := runModel c w1 (twinOps c mInit (ops.zip mSteps))
+        let (mTwin, _) := runModel c aux0 own0 w1 (twinOps c mInit (ops.zip mSteps))
         let (n, vi) := specC02 c iInit (ops.zip iSteps) iTwin
         let (_, vm) := specC02 c mInit (ops.zip mSteps) mTwin
-        pure (n, vi, vm)
+        -- a known finding is reported only on runs where code and model agree on everything else observed
+        let noOwn (s : StepObs) : StepObs := { s with st := { s.st with own := [] } }
+        let sameModOwn := decide ({ iInit with own := [] } = { mInit with own := [] }) && decide (iSteps.map noOwn = mSteps.map noOwn)
+        let gate : Option String → Option String := fun
+          | some w => if w.startsWith "finding:" && !sameModOwn then none else some w
+          | none => none
+        pure (n, gate vi, gate vm)
     return Json.mkObj [
       ("model", Json.mkObj [("ctor_err", Json.null), ("init", Json.mkObj (stateFields mInit)), ("steps", jList jStep mSteps), ("cut", toJson cut)]),
       ("applicable", Json.bool (!unsupported)), ("checked_steps", toJson n),
